@@ -6,7 +6,7 @@ from ..model import norm, head, walk_no_nested, AnalysisError, FuncInfo, ClassIn
 from ..cfg import cfg_of
 from ..resolve import Resolver, Ctx
 from ..escape import Escape, fmt_chain, items_sorted
-from ..q import find, match, try_const, tests, calls, only_via, cfg_node_for
+from ..q import find, match, try_const, tests, calls, only_via, cfg_node_for, fold_block, const
 from ..core import key
 from ..buf import P, FROM
 from .c12 import TAG_BOUNDARIES
@@ -194,6 +194,78 @@ def rule_escape(report, prog, res, tier):
     report.stats['asserts_skipped'] = {k: ASSERTS_OK[k] for k in sorted(summary.get('asserts_skipped', []))}
 
 
+def stmt_lists(root):
+    for node in ast.walk(root):
+        for fld in ('body', 'orelse', 'finalbody'):
+            lst = getattr(node, fld, None)
+            if isinstance(lst, list) and lst and isinstance(lst[0], ast.stmt):
+                yield lst
+        if isinstance(node, ast.Try):
+            for h in node.handlers:
+                yield h.body
+
+
+def _retry_unit(prog, f):
+    """The function that holds the retry loop of a transceive operation: the operation itself, or a method that the reference tree
+    does not have (an extracted helper) and that the operation calls on self."""
+    from ..inline import is_new_unit
+    if any(isinstance(c, ast.Call) and norm(c.func) == 'self.clf.exchange' for c in ast.walk(f.node)):
+        return f
+    cls = f.qname.rsplit('.', 1)[0]
+    for c in walk_no_nested(f.node):
+        if isinstance(c, ast.Call) and isinstance(c.func, ast.Attribute) and norm(c.func.value) == 'self':
+            g = prog.functions.get(cls + '.' + c.func.attr)
+            if g is not None and is_new_unit(g.module.name, g.qname[len(g.module.name) + 1:]) and \
+                    any(isinstance(x, ast.Call) and norm(x.func) == 'self.clf.exchange' for x in ast.walk(g.node)):
+                return g
+    return f
+
+
+WANT = {'nfc.clf.TimeoutError': 'nfc.tag.TIMEOUT_ERROR', 'nfc.clf.TransmissionError': 'nfc.tag.RECEIVE_ERROR',
+        'nfc.clf.ProtocolError': 'nfc.tag.PROTOCOL_ERROR'}
+
+
+def error_mapping(prog, f, want=None, reader_mode=None):
+    """Fold the statements that run when the retry loop of a transceive operation is used up, once per error class the frontend raises
+    in reader mode -> ({error class: reason code of the TagCommandError raised}, unit holding the loop)."""
+    want = want or WANT
+    reader_mode = reader_mode or set(x for x in TAG_BOUNDARIES['nfc.clf.ContactlessFrontend.exchange'] if x != 'OSError')
+    got = {}
+    g = _retry_unit(prog, f)
+    loops = [lp for lp in walk_no_nested(g.node) if isinstance(lp, ast.For) and
+             any(isinstance(c, ast.Call) and norm(c.func) == 'self.clf.exchange' for c in ast.walk(lp))]
+    if len(loops) == 1:
+        lp = loops[0]
+        region = lp.orelse
+        if not region:
+            # no for/else: the statements behind the loop run when the retries are used up
+            for lst in stmt_lists(g.node):
+                if any(x is lp for x in lst):
+                    region = lst[[x is lp for x in lst].index(True) + 1:]
+        toks = {k: ('class', k) for k in want}
+        codes = {v: ('code', v) for v in want.values()}
+        for cls in sorted(reader_mode | set(want)):
+            tok = toks.get(cls, ('class', cls))
+            env = dict((k, v) for k, v in toks.items())
+            env.update(codes)
+            env['type(error)'] = tok
+            env['error.__class__'] = tok
+            try:
+                r = fold_block(list(region), env)
+            except Exception:
+                continue
+            rs = env.get('__raise__')
+            if r[0] == 'raise' and rs is not None and isinstance(rs.exc, ast.Call) and len(rs.exc.args) == 1 \
+                    and norm(rs.exc.func).endswith('TagCommandError'):
+                try:
+                    v = const(rs.exc.args[0], env)
+                except Exception:
+                    continue
+                if isinstance(v, tuple) and v[0] == 'code':
+                    got[cls] = v[1]
+    return got, g
+
+
 def rule_mapping(report, prog):
     want = {'nfc.clf.TimeoutError': 'nfc.tag.TIMEOUT_ERROR', 'nfc.clf.TransmissionError': 'nfc.tag.RECEIVE_ERROR',
             'nfc.clf.ProtocolError': 'nfc.tag.PROTOCOL_ERROR'}
@@ -201,21 +273,17 @@ def rule_mapping(report, prog):
     n = 0
     for q in ('nfc.tag.tt1.Type1Tag.transceive', 'nfc.tag.tt2.Type2Tag.transceive', 'nfc.tag.tt3.Type3Tag.send_cmd_recv_rsp'):
         f = prog.func(q)
-        got = {}
-        for i in walk_no_nested(f.node):
-            if isinstance(i, ast.If):
-                b = match(i.test, 'type(error) is $C')
-                if b is not None:
-                    r = [x for x in i.body if isinstance(x, ast.Raise)]
-                    if r and isinstance(r[0].exc, ast.Call) and r[0].exc.args:
-                        got[norm(b['C'])] = norm(r[0].exc.args[0])
+        got, g = error_mapping(prog, f, want, reader_mode)
+        if g is not f:
+            report.stats.setdefault('mapping_unit', {})[q] = g.qname
         n += 1
         report.check(got == want, 'C16-R2', key(q, 'Timeout/Transmission/Protocol -> TIMEOUT/RECEIVE/PROTOCOL_ERROR'), f.loc(),
                      'error mapping of %s: %r' % (q, got))
         tot = report.check(set(got) >= reader_mode, 'C16-R2', key(q, 'mapping is total over the errors the frontend raises in reader mode'), f.loc(),
                            'no mapping for %s: the fall-through raises an unrelated exception' % sorted(reader_mode - set(got)))
         report.stats.setdefault('mapping_total', {})[q] = bool(tot)
-        hs = [norm(h.type) for t in walk_no_nested(f.node) if isinstance(t, ast.Try) for h in t.handlers if h.type is not None]
+        report.stats['mapping_total'][g.qname] = bool(tot)
+        hs = [norm(h.type) for t in walk_no_nested(g.node) if isinstance(t, ast.Try) for h in t.handlers if h.type is not None]
         report.check('nfc.clf.CommunicationError' in hs, 'C16-R2', key(q, 'retry loop catches CommunicationError'), f.loc(), 'handlers: %s' % hs)
     report.floor('C16-R2', n, 3)
     # tt4 sites are checked by C12-R3; count them here for the table
@@ -240,7 +308,7 @@ def rule_retry(report, prog):
     specs = [('nfc.tag.tt1.Type1Tag.transceive', 'range(3)'), ('nfc.tag.tt2.Type2Tag.transceive', 'range(1 + retries)'),
              ('nfc.tag.tt3.Type3Tag.send_cmd_recv_rsp', None)]
     for q, rng in specs:
-        f = prog.func(q)
+        f = _retry_unit(prog, prog.func(q))
         ex = [c for c in ast.walk(f.node) if isinstance(c, ast.Call) and norm(c.func) == 'self.clf.exchange']
         report.check(len(ex) == 1, 'C16-R3', key(q, 'one exchange site'), f.loc(), '%d exchange sites' % len(ex))
         if len(ex) != 1:
@@ -255,9 +323,14 @@ def rule_retry(report, prog):
             idx = [i for i, s in enumerate(body) if any(x is ex[0] for x in ast.walk(s))]
             # the statement right after a successful exchange leaves the loop
             okk = bool(idx) and idx[0] + 1 < len(body) and isinstance(body[idx[0] + 1], ast.Break)
+            # ... or the exchange is the value of a return statement
+            by_return = bool(idx) and isinstance(body[idx[0]], ast.Return) and body[idx[0]].value is ex[0]
+            okk = okk or by_return
         report.check(okk, 'C16-R3', key(q, 'an answered command leaves the retry loop immediately (break)'), f.loc(),
                      'after a successful exchange the command can be sent again')
-        report.check(bool(loops) and bool(loops[0].orelse), 'C16-R3', key(q, 'exhausted retries reach the error mapping (for/else)'), f.loc(),
+        # a loop that is only left by return / raise needs no else: what follows it runs exactly when the retries are used up
+        no_break = bool(loops) and not any(isinstance(x, ast.Break) for x in ast.walk(loops[0]))
+        report.check(bool(loops) and (bool(loops[0].orelse) or no_break), 'C16-R3', key(q, 'exhausted retries reach the error mapping (for/else)'), f.loc(),
                      'retry loop has no else branch for exhausted retries')
     f = prog.func('nfc.tag.tt2.Type2Tag.sector_select')
     okk = any(isinstance(c, ast.Call) and norm(c.func) == 'self.transceive' and {k.arg: norm(k.value) for k in c.keywords} == {'timeout': '0.001', 'retries': '0'}
